@@ -23,6 +23,8 @@ func FullLeaves() []*Node {
 		Group("g", T(Phrase("one value"))),
 		// regular expressions with escapes, numeric field names
 		F("f", Regexp(`/C:\\/`)), T(Regexp(`/a\/b/`)), FV(Int(5), Wild("c*")), FV(Float("1.5"), Word("x")),
+		// number spellings: leading zeros are decimal, not octal
+		F("f", IntText("010")), T(IntText("0017")), Range("n", IntText("010"), IntText("020"), true), F("f", IntText("-010")),
 	}
 }
 
